@@ -39,6 +39,12 @@ impl KillersTable {
         self.0[plies][1] = killer_0;
         self.0[plies][0] = Some(mv);
     }
+
+    /// Verification hook: write a killer pair directly.
+    #[cfg(jgilchrist_tcheran_verif)]
+    pub fn verif_set(&mut self, plies: u8, killer_0: Option<Move>, killer_1: Option<Move>) {
+        self.0[plies as usize] = [killer_0, killer_1];
+    }
 }
 
 pub struct HistoryTable([[[i32; Square::N]; Square::N]; Player::N]);
